@@ -1,0 +1,6 @@
+//go:build !verif
+// +build !verif
+
+package agent
+
+func verifReadGap(dc *agentConnection) {}
